@@ -204,6 +204,8 @@ def tie_bytes(r):      # exact Marshal bytes
 
 def tie_dec_val(r):    # decoded value + ok/err
     ms = r["model"].get("st", "?")
+    if ms == "skipped":
+        return True
     if r["ist"] == "PANIC":
         return False
     if (r["ist"] == "ok") != (ms == "ok"):
@@ -212,14 +214,20 @@ def tie_dec_val(r):    # decoded value + ok/err
 
 
 def tie_dec_ok(r):     # the boolean err == nil
+    if r["model"].get("st") == "skipped":
+        return True
     return (r["ist"] == "ok") == (r["model"].get("st") == "ok")
 
 
 def tie_dec_class(r):  # outcome class only
+    if r["model"].get("st") == "skipped":
+        return True  # very long input: model evaluated in the thorough tier only
     return tie_dec_ok(r) and r["ist"] != "PANIC"
 
 
 def tie_dec_err(r):    # (field, class) of errors
+    if r["model"].get("st") == "skipped":
+        return True
     return r["ist"] == r["model"].get("st")
 
 
@@ -238,6 +246,8 @@ def spec_msg(r):
 def spec_dec(r):
     # ref_decode accepts exactly the well-formed inputs and yields what the model decoder yields
     m = r["model"]
+    if m.get("st") == "skipped":
+        return True
     wf = r["flags"].get("wf") == "1"
     if (m.get("ref") != "reject") != wf:
         return False
@@ -287,6 +297,8 @@ def run_message_property(ctx, spec):
             if spec.get("filter") and not spec["filter"](r):
                 continue
             total += 1
+            if r.get("model", {}).get("st") == "skipped":
+                hist.setdefault("model", {})["skipped_long_input"] = hist.setdefault("model", {}).get("skipped_long_input", 0) + 1
             h = hist.setdefault("type", {})
             h[r["key"]] = h.get(r["key"], 0) + 1
             if r["suite"] == "dec":
@@ -385,3 +397,216 @@ def nontrivial_any(r):
 
 def msg_flag(name):
     return lambda r: r["impl"] != "PANIC" and r["flags"].get(name) == "ok"
+
+
+# --------------------------------------------------------------------------
+# leaf suites: writer / reader / fnstr / conv rows
+
+def leaf_eval(r):
+    """Returns (impl_vs_oracle_ok or None, impl_vs_model_ok, description, identity, nontrivial)."""
+    s, c, m = r["suite"], r["cols"], r["model"]
+    mv = m[0] if m else "?"
+    if s == "writer":
+        k, always, rep, num, vals, impl, ref = c[:7]
+        return (impl == ref, impl == mv, "writer %s always=%s rep=%s field=%s vals=%s -> %s (reference %s, model %s)" % (k, always, rep, num, vals[:200], impl[:200], ref[:200], mv[:200]),
+                "|".join(c[:5]), vals not in ("(l)", "(l (i 0))", "(l (b x))"), k)
+    if s == "reader":
+        k, rep, field, data, init, res = c[:6]
+        return (None, res == mv and res != "PANIC", "reader %s rep=%s field=%s data=%s init=%s -> %s (model %s)" % (k, rep, field, data, init, res, mv),
+                "|".join(c[:5]), len(data) > 3, k)
+    if s == "fnstr":
+        f, impl, ref = c[:3]
+        return (impl == ref, impl == mv, "FieldNumber(%s).String() = %s, strconv.Itoa = %s, model %s" % (f, impl, ref, mv), f, f not in ("0",), "fnstr")
+    if s == "durdec":
+        sec, n, impl, ref = c[:4]
+        return (impl == ref, impl == mv, "Duration decode (%s s, %s ns) = %s, durationpb %s, model %s" % (sec, n, impl, ref, mv), "durdec|%s|%s" % (sec, n), (sec, n) != ("0", "0"), "durdec")
+    if s == "tsdec":
+        sec, n, impl, ref = c[:4]
+        a, b = impl.split(" "), ref.split(" ")
+        return (a[:2] == b[:2] and a[2] == "UTC", " ".join(a[:2]) == mv, "Timestamp decode (%s s, %s ns) = %s, timestamppb %s, model %s" % (sec, n, impl, ref, mv), "tsdec|%s|%s" % (sec, n), (sec, n) != ("0", "0"), "tsdec")
+    if s == "durenc":
+        d, impl, ref, back = c[:4]
+        return (impl == ref and back == d, impl == mv, "Duration %s encodes to %s (durationpb %s), back %s, model %s" % (d, impl, ref, back, mv), "durenc|" + d, d != "0", "durenc")
+    if s == "tsenc":
+        sec, n, impl, ref, back = c[:5]
+        return (impl == ref and (impl == "x" or back == sec + " " + n), impl == mv, "Time (%s,%s) encodes to %s (timestamppb %s), back %s, model %s" % (sec, n, impl, ref, back, mv), "tsenc|%s|%s" % (sec, n), True, "tsenc")
+    return (None, True, "", "", False, s)
+
+
+def run_leaf_property(ctx, spec):
+    level = spec.get("level", "proof")
+    if not model_available(ctx):
+        return infra_failure(ctx, level)
+    ok, ob, problems = proof_status(ctx, spec["theorems"])
+    prop_bad, tie_bad = [], []
+    total, distinct, hist, samples = 0, set(), {}, []
+    for sname, gen_args in spec["suites"](ctx):
+        rows = E.run_suite(ctx, sname, gen_args)
+        for r in rows:
+            if spec.get("filter") and not spec["filter"](r):
+                continue
+            po, to, desc, ident, nontriv, hk = leaf_eval(r)
+            total += 1
+            h = hist.setdefault("kind", {})
+            h[hk] = h.get(hk, 0) + 1
+            if nontriv:
+                distinct.add(r["suite"] + "|" + ident)
+            if po is False:
+                prop_bad.append((r, desc))
+            if not to:
+                tie_bad.append((r, desc))
+            if len(samples) < 4 and nontriv and total % 97 == 1:
+                samples.append(desc[:400])
+    ctx.add_cases(total, len(distinct), traces=total, hist=hist, samples=samples)
+    ctx.cover["rule"] = spec["rule"]
+    if prop_bad:
+        r, desc = min(prop_bad, key=lambda x: len(x[1]))
+        ctx.violation(r["suite"], {"suite": r["suite"], "case": r["cols"], "model": r["model"], "what": desc, "failing_cases": len(prop_bad),
+                                   "replay_cmd": "/verif/check %s %s  (case is regenerated deterministically from VERIF_SEED=%d)" % (ctx.pid, ctx.tier, ctx.seed)},
+                      text=desc[:300])
+    elif tie_bad or not ok:
+        detail = {"broken_theorems_or_obligations": problems,
+                  "correspondence_mismatches": [d[:600] for _, d in tie_bad[:5]],
+                  "search": "%d cases against the independent reference (protowire / strconv / durationpb / timestamppb): no failing input" % total}
+        ctx.violation("tie", detail, has_input=False, text=json.dumps(detail)[:500])
+    return E.finish(ctx, level, trusted=KERNEL_TB + spec.get("trusted", []))
+
+
+K32 = ("bool", "int32", "sint32", "sfixed32", "uint32", "fixed32", "float")
+
+
+def check_C13(ctx):
+    return run_leaf_property(ctx, dict(
+        theorems=["C13_writer", "C13_nest_message", "C13_nest_always", "C13_nest_present", "C13_reader_other", "C13_reader_wrong_wire", "C13_reader_value", "C13_reader_next"],
+        suites=lambda c: [("writers", ["writers", c.seed] + (["thorough"] if c.tier == "thorough" else [])), ("readers", ["readers", c.seed])],
+        rule="exhaustive grids: 60 typed writers x boundary value alphabet x field-number alphabet (1..2^29-1 boundaries) x dirty/tight buffers, lists across packed length classes; "
+             "30 typed readers x pending{same,other} x wire types 0-7 x payload alphabet (valid, empty, truncated, overlong, packed); reference = protobuf-go protowire; "
+             "non-trivial = non-default value / payload longer than a tag"))
+
+
+def check_C15(ctx):
+    spec = dict(
+        theorems=["C15_enc", "C15_enc_element", "C15_dec", "C15_dec_element"],
+        suites=lambda c: [("writers", ["writers", c.seed] + (["thorough"] if c.tier == "thorough" else [])), ("readers", ["readers", c.seed])] +
+                         ([("sweep32", ["sweep32", c.seed])] if c.tier == "thorough" else []),
+        filter=lambda r: r["suite"] == "sweep32" or r["cols"][0] in K32,
+        rule="writer/reader grids restricted to the 32-bit kinds (bool,int32,sint32,sfixed32,uint32,fixed32,float; enum uses the int32 writer); "
+             "thorough adds the exhaustive 2^32 sweep of every kind against a Go transcription of closed_form; non-trivial = non-default")
+    return run_leaf_property(ctx, spec)
+
+
+def check_C19(ctx):
+    return run_leaf_property(ctx, dict(
+        theorems=["C19_str", "C19_err_wire"],
+        suites=lambda c: [("fnstr", ["fnstr", c.seed, _n(c, 3000, 200000)]), ("readers", ["readers", c.seed])],
+        rule="FieldNumber.String on boundaries (0, +-10^k+-1, Min/MaxInt32) and random int32 against strconv.Itoa; reader grid compares (field, class) of every error; non-trivial = non-zero"))
+
+
+def check_C14(ctx):
+    return run_leaf_property(ctx, dict(
+        theorems=["C14_dur_enc", "C14_dur_fits", "C14_dur_sat", "C14_dur_rt", "C14_ts_norm", "C14_ts_rt"],
+        suites=lambda c: [("conv", ["conv", c.seed, _n(c, 1500, 100000)])],
+        trusted=["modelled, not verified: Go time.Unix/Unix()/Nanosecond()/IsZero()/UTC() (from the Go standard library source), int64 wrap-around of time.Duration arithmetic"],
+        rule="(seconds,nanos) plane on a boundary grid (+-floor(MaxInt64/10^9)+-1, 0, +-1, int32/int64 extremes, mixed signs) x random; durations and instants; "
+             "reference = durationpb/timestamppb New/AsDuration/AsTime; non-trivial = not (0,0)"))
+
+
+# --------------------------------------------------------------------------
+# message-level properties
+
+def _msg_suite(c, n_quick, n_thorough):
+    return ("msg", ["msg", c.seed, _n(c, n_quick, n_thorough)])
+
+
+def check_C01(ctx):
+    return run_message_property(ctx, dict(
+        theorems=["C01_scalar_field", "C01_varint_readable", "C01_framing"],
+        suites=lambda c: [_msg_suite(c, 2500, 60000)],
+        prop={"msg": msg_flag("c01")}, tie={"msg": tie_bytes}, spec={"msg": spec_msg},
+        nontrivial=nontrivial_any, shrink_flag="c01=bad", rule=MSG_RULE + "; oracle: proto.Unmarshal (dynamicpb) of the Marshal output compared with the value"))
+
+
+def check_C03(ctx):
+    return run_message_property(ctx, dict(
+        theorems=["C03_scalar", "C03_transform", "C03_duration", "C03_time"],
+        suites=lambda c: [_msg_suite(c, 2500, 60000)],
+        prop={"msg": msg_flag("c03")}, tie={"msg": tie_bytes}, spec={"msg": spec_msg},
+        nontrivial=nontrivial_any, shrink_flag="c03=bad", rule=MSG_RULE + "; oracle: deep comparison of m with Unmarshal(Marshal(m)) (bit patterns, presence, map contents)"))
+
+
+def check_C06(ctx):
+    return run_message_property(ctx, dict(
+        theorems=["C06_minimal_varint", "C06_minimal_tag", "C06_minimal_length", "C06_field"],
+        suites=lambda c: [_msg_suite(c, 2500, 60000)],
+        prop={"msg": lambda r: r["impl"] != "PANIC" and r["flags"].get("c06") in ("ok", "na")}, tie={"msg": tie_bytes}, spec={"msg": spec_msg},
+        nontrivial=nontrivial_any, shrink_flag="c06=bad",
+        rule=MSG_RULE + "; map-free types only for the property test; oracle: bytes == deterministic re-marshal of their own parse (protobuf-go)"))
+
+
+def check_C08(ctx):
+    return run_message_property(ctx, dict(
+        theorems=["C08_optional_always", "C08_oneof_always", "C08_oneof_enum_always", "C08_always_emits", "C08_message_presence"],
+        suites=lambda c: [_msg_suite(c, 2500, 60000)],
+        prop={"msg": lambda r: r["impl"] != "PANIC" and r["flags"].get("c08o") == "ok" and r["flags"].get("c08r") == "ok"},
+        tie={"msg": tie_bytes}, spec={"msg": spec_msg}, nontrivial=nontrivial_any, shrink_flag="c08",
+        rule=MSG_RULE + "; projection: presence skeleton (nil-ness, selected oneof member, list lengths) after round trip and as seen by the reference (Has())"))
+
+
+def check_C02(ctx):
+    return run_message_property(ctx, dict(
+        theorems=["C02_value_rules", "C02_field", "C02_tag"],
+        suites=lambda c: [("decv", ["decv", c.seed, _n(c, 2500, 60000)])],
+        prop={"dec": lambda r: r["ist"] == "ok" and r["ost"] == "ok" and r["flags"].get("c02") == "ok"},
+        tie={"dec": tie_dec_val}, spec={"dec": spec_dec}, nontrivial=nontrivial_any, rule=DEC_RULE + " (valid stream only); oracle: proto.Unmarshal of the same bytes"))
+
+
+def check_C10(ctx):
+    return run_message_property(ctx, dict(
+        theorems=["C10_known_untouched", "C10_retag", "C10_skip_varint"],
+        suites=lambda c: [("decv", ["decv", c.seed + 7, _n(c, 2500, 60000)]), ("decb", ["decb", c.seed + 7, _n(c, 1500, 30000)])],
+        prop={"dec": lambda r: r["ist"] != "PANIC" and (r["tag"] != "valid" or (r["ist"] == "ok" and r["flags"].get("c02") == "ok"))},
+        tie={"dec": tie_dec_val}, spec={"dec": spec_dec}, nontrivial=nontrivial_any,
+        rule=DEC_RULE + "; unknown fields/groups injected at every level (also into capturing messages: captured bytes compared with the reference's unknown fields, re-tagged); malformed stream must give an error, never a crash"))
+
+
+def check_C04(ctx):
+    return run_message_property(ctx, dict(
+        theorems=["C04_varint_in_bounds", "C04_bytes_in_bounds"],
+        suites=lambda c: [("decb", ["decb", c.seed, _n(c, 4000, 100000)]), ("deep", ["deep", c.seed])],
+        prop={"dec": lambda r: r["ist"] != "PANIC" and "input-modified" not in r["flags"] and "slow" not in r["flags"]},
+        tie={"dec": tie_dec_class}, nontrivial=nontrivial_any,
+        trusted=["runtime facts observed, not modelled: Go stack growth on 10 000-deep nesting, wall-clock time, recover()"],
+        rule=DEC_RULE + " (malformed stream) + 10 000-deep sub-message and 10 001-deep group inputs under a watchdog; projection: outcome class ok/err/PANIC/slow and input bytes before/after"))
+
+
+def check_C05(ctx):
+    return run_message_property(ctx, dict(
+        theorems=["C05_invalid_number", "C05_truncated_tag", "C05_wrong_wire", "C05_sticky_next", "C05_sticky_pop"],
+        suites=lambda c: [("decb", ["decb", c.seed + 3, _n(c, 4000, 100000)]), ("decv", ["decv", c.seed + 3, _n(c, 800, 20000)])],
+        prop={"dec": lambda r: r["ist"] != "PANIC" and (r["ist"] == "ok") == (r["flags"].get("wf") == "1")},
+        tie={"dec": tie_dec_ok}, spec={"dec": spec_dec}, nontrivial=nontrivial_any,
+        rule=DEC_RULE + "; oracle: independent well-formedness predicate on protobuf-go's protowire; projection: err == nil"))
+
+
+def check_C09(ctx):
+    return run_message_property(ctx, dict(
+        theorems=["C09_no_reset", "C09_cursor", "C09_overwrite"],
+        suites=lambda c: [("hist", ["hist", c.seed, _n(c, 1500, 40000)])],
+        prop={"hist": lambda r: r["flags"].get("seq") == "ok" and r["flags"].get("ref") == "ok"},
+        tie={"hist": tie_hist}, nontrivial=nontrivial_any,
+        rule="histories of 1-4 valid (rewritten) encodings of one type decoded sequentially into one message and in one call on the concatenation; "
+             "oracle: proto.Unmarshal of the concatenation; non-trivial = at least two chunks"))
+
+
+def check_C11(ctx):
+    return run_message_property(ctx, dict(
+        theorems=["C11_entry"],
+        suites=lambda c: [("msg", ["msg", c.seed, _n(c, 500, 30000), "Map"]), ("decv", ["decv", c.seed, _n(c, 600, 30000), "Map"]), ("hist", ["hist", c.seed + 1, _n(c, 200, 5000), "Map"])],
+        filter=lambda r: "Map" in r.get("key", ""),
+        prop={"msg": lambda r: r["impl"] != "PANIC" and r["flags"].get("c01") == "ok" and r["flags"].get("c03") == "ok",
+              "dec": lambda r: r["ist"] == "ok" and r["flags"].get("c02") == "ok",
+              "hist": lambda r: r["flags"].get("seq") == "ok" and r["flags"].get("ref") == "ok"},
+        tie={"msg": tie_bytes, "dec": tie_dec_val, "hist": tie_hist}, spec={"msg": spec_msg, "dec": spec_dec},
+        nontrivial=nontrivial_any, shrink_flag="bad",
+        rule="map-typed messages only: random maps (zero keys, zero values, NaN values, 0-6 entries), Marshal repeated under Go's random iteration order "
+             "(the model's entry order is instantiated with the observed one), wire encodings with missing key/value, duplicates, both field orders, unknown fields inside entries; oracle: dynamicpb maps"))
